@@ -29,6 +29,8 @@ VECTORS = [
     {"-p": 8, "-diff": 0},
     {"-ss": 1},
     {"-ss": 2, "-sj": 0.5, "-d": 1000},
+    {"-pt": 1, "-r2": 50, "-b2": 1},
+    {"-sp": 10, "-dp": 0.001, "-su": 0, "-ms": 1, "-bs": 0},
 ]
 
 
@@ -114,6 +116,25 @@ def one_input(args):
                 ent["plain"] = {name: ([pipe_common.rec_for_tla(r) for r in p["records"] if not r.get("malformed")]
                                        if p else None) for name, p in ref_run["files"].items()}
             out["runs"][mode] = ent
+        # selections that match nothing: no query / no reference at all
+        for label, kw in (("qId-matches-nothing", {"qids": [987654]}), ("rId-matches-nothing", {"rids": [987654]})):
+            mode = MODES[idx % 4]
+            res = pipecases.run_once(wd, rp, qp, "none_" + label, mode, extra, **kw)
+            ent = {"status": res["status"], "log": res["log"][-500:], "cli": False, "files": {}}
+            for name, parsed in res["files"].items():
+                if parsed is None:
+                    ent["files"][name] = None
+                    continue
+                f = {"header_ok": parsed["header_ok"],
+                     "malformed": [r["malformed"] for r in parsed["records"] if r.get("malformed")],
+                     "records": [pipe_common.rec_for_tla(r) for r in parsed["records"] if not r.get("malformed")]}
+                try:
+                    rb = pipe_common.read_back(parsed["path"], rp, qp)
+                    f["readback"] = "ok" if len(rb) == len(f["records"]) else f"count:{len(rb)}"
+                except Exception as e:
+                    f["readback"] = "exc:" + type(e).__name__
+                ent["files"][name] = f
+            out["runs"][f"{mode}/{label}"] = ent
     finally:
         shutil.rmtree(wd, ignore_errors=True)
     return out
